@@ -502,7 +502,7 @@ func (c *Ctx) ruleProofHash() {
 		return
 	}
 	for i, r := range returnsOf(v) {
-		if !isNilConst(r.Results[0]) {
+		if !isNilConst(resultOf(r, 0)) {
 			continue
 		}
 		facts := factsAt(r.Block())
